@@ -486,10 +486,18 @@ pub fn all_subjects(prop: &str, thorough: bool) -> Vec<Subject> {
     if prop == "C14" {
         // Byte-format sources under back pressure: files larger than the
         // stream, read out in pieces.
-        return crate::subjects_src::source_subjects()
+        let mut v: Vec<Subject> = crate::subjects_src::source_subjects()
             .into_iter()
             .filter(|s| s.block != "VectorSource" && !s.infinite_source)
             .collect();
+        // "Survive read segmentation": the AU codec blocks under every
+        // chunking (judged against their one-shot output).
+        v.extend(
+            crate::subjects_native::native_subjects("C14")
+                .into_iter()
+                .filter(|s| ["AuEncode", "AuDecode"].contains(&s.block.as_str())),
+        );
+        return v;
     }
     if prop == "C11" {
         // "all chunkings": the DSP blocks whose one-shot output the dsp engine
